@@ -24,7 +24,11 @@ func runLRU(far *Base, res *lib.Result, v Variant, r *lib.RNG) {
 	if far == nil || far.Pool == nil {
 		return
 	}
-	w := far.W[0].fork("lru-small-cache", r, 777, far.Pool, v, false)
+	src := far.W[0]
+	if src == nil {
+		src = far.W[1]
+	}
+	w := src.fork("lru-small-cache", r, 777, far.Pool, v, false)
 	defer w.close()
 	w.ask(fmt.Sprintf("cfg %x 2 0 1 1", W))
 	w.ask("load")
